@@ -6,9 +6,9 @@ both = ("quick", "thorough"); th = ("thorough",)
 DEPTHS = [0, 1, 2, 3, 8, 9, 16, 17, 24, 29]
 MANIFEST = dict(
     category="other",
-    text="Decided part: for each listed depth and EVERY cell, center_of_projected_cell(h) equals the integer geometry of the cell exactly (x = Xc/nside reduced to [0,8), y = Yc/nside in [-2,2]; power-of-two scaling is exact) -- the quantity every accessor (center, sph_coo, vertex, vertices, vertices_map, path_*, grid) starts from -- and cell numbers >= 12*4^depth are rejected by a panic. hash_with_dxdy's discretisation (shift_rotate_scale, depth0_bits arms) with proj as a contract stub is only a time-bounded refutation search in the thorough tier (CBMC did not finish in 400 s in three formulations). Round trips through unproj/hash (libm inverse pairs) and the 1e-13 rad claim are NOT decided.",
-    note="Bounded to listed depths {0,1,2,3,8,9,16,17,24,29}; relies on C04/C18 for the codec; the libm-dependent half of C03 is not decided.",
-    technique="Kani per-depth full-domain harnesses (CBMC) on the real center_of_projected_cell against the integer geometry; must-panic harnesses",
+    text="Per listed depth and for EVERY cell / every position strictly inside the projected domain: (1) center_of_projected_cell(h) equals the integer geometry of the cell exactly (x = Xc/nside in [0,8), y = Yc/nside in [-2,2]) -- the quantity every accessor (center, sph_coo, vertex, vertices, vertices_map, path_*, grid) starts from; (2) hash_with_dxdy decomposed by contracts: shift_rotate_scale returns finite rotated coordinates in [0, 5.5 nside] (the obligation that refuted the original code at depth 0, finding D19), and, with shift_rotate_scale and proj as contract stubs, the rest of hash_with_dxdy (discretize, base_cell_coos, depth0_bits main arm incl. the base-cell-4 wrap, to_coos_in_base_cell, real codec) returns exactly the cell whose unit square in the rotated frame contains the position, with dx, dy the position relative to its south corner, in [0,1); (3) cell numbers >= 12*4^depth are rejected by a panic. On the upper borders of base cells (rare arms of depth0_bits) only range obligations are stated. Round trips through unproj/hash (libm inverse pairs), the 1e-13 rad claim and vertices consistency across accessors are NOT decided.",
+    note="Bounded to listed depths {0,1,2,3,8,9,16,17,24,29} (quick: tail at depths 0 and 29, the other obligations at all ten); relies on C04/C18 for the codec and C17 for proj; the libm-dependent half of C03 is not decided.",
+    technique="Kani per-depth full-domain harnesses (CBMC, IEEE-754 bit-precise) on the real accessors with proj / shift_rotate_scale as contract stubs, against the integer geometry of the projection plane",
 )
 EXPLANATION = "Per listed depth complete over all cells; depth list is the bound."
 ASSUMPTIONS = ["accessors = unproj(centre +- offsets): unproj itself is C17 (wrappers only)", "hash(sph_coo(h,dx,dy)) == h and the 1e-13 rad recovery claim: NOT decided", "hash_with_dxdy discretisation: searched (thorough), not proved"]
@@ -20,6 +20,8 @@ def units():
                        "depth %d, all cells: projected centre == integer geometry exactly; x in [0,8), y in [-2,2]" % d, timeout=900, level="B", bound="depth %d" % d))
         us.append(Unit("geom_panic_d%02d" % d, P + "geom_panic_d%02d" % d, ["Layer::center_of_projected_cell", "Layer::check_hash"], "depth %d: cell number >= 12*4^d rejected by a panic" % d, kind="must_panic", allowed_fail=[r"Wrong hash value: too large"], tiers=both if d in (0, 3, 29) else th, timeout=600))
         us.append(Unit("geom_srsfin_d%02d" % d, P + "geom_srsfin_d%02d" % d, ["Layer::shift_rotate_scale", "Layer::new (time_half_nside)"], "depth %d, every point of the projected domain: the rotated, scaled coordinates are finite and within [0, 5.5 nside] (this obligation refutes the original code at depth 0: -inf when a coordinate is exactly 0, finding D19)" % d, timeout=600, level="B", bound="depth %d" % d))
+        us.append(Unit("geom_hdtail_d%02d" % d, P + "geom_hdtail_d%02d" % d, ["Layer::hash_with_dxdy", "discretize", "Layer::base_cell_coos", "Layer::depth0_bits (main arm)", "Layer::to_coos_in_base_cell", "Layer::build_hash", "(contract stub) proj", "(contract stub) Layer::shift_rotate_scale"],
+                       "depth %d, every position strictly inside the projected domain: hash_with_dxdy returns a cell < 12*4^d whose unit square in the rotated frame contains the position, with dx, dy = position relative to its south corner, in [0,1)" % d, tiers=both if d in (0, 29) else th, timeout=1800, level="B", bound="depth %d" % d, extra=dict(no_native=True)))
         if d in (0, 1, 29):
             us.append(Unit("geom_srs_search_d%02d" % d, P + "geom_srs_d%02d" % d, ["Layer::shift_rotate_scale"], "depth %d: shift_rotate_scale == (u, v) * nside/2 exactly; time-bounded refutation search" % d, kind="search", tiers=th, timeout=1200))
         if d in (0, 3, 29):
